@@ -11,10 +11,16 @@ def run(tier, seed):
     src = os.path.join(vlib.VERIF, "harness/go/internal/native/wemu/riscv64/zz_verif_c20.go")
     gen = os.path.join(c.scratch, "rv32_zz_verif_c20.go")
     open(gen, "w").write(open(src).read().replace("package riscv64", "package riscv32", 1))
-    which = os.environ.get("VERIF_C20", "riscv64,riscv32").split(",")
+    which = os.environ.get("VERIF_C20", "riscv64,riscv32,loong64").split(",")
     if "riscv64" in which:
         c.run_unit("internal/native/wemu/riscv64", "riscv64", opts={"samples": 3, "maxdecisions": 3000, "branchtimeout": "30s", "stubstr": "wa-lang.org/wa/internal/native/riscv.AsmSyntax,wa-lang.org/wa/internal/native/riscv.AsString"})
     if "riscv32" in which:
         c.run_unit("internal/native/wemu/riscv32", "riscv32", opts={"samples": 3, "maxdecisions": 3000, "branchtimeout": "30s", "stubstr": "wa-lang.org/wa/internal/native/riscv.AsmSyntax,wa-lang.org/wa/internal/native/riscv.AsString"},
                    extra_overlay={os.path.join(vlib.REPO, "internal/native/wemu/riscv32/zz_verif_c20.go"): gen})
+    if "loong64" in which:
+        c.run_unit("internal/native/wemu/loong64", "loong64",
+                   extra_pkgs=[{"dir": "internal/native/loong64", "name": "loong64", "rt": True}],
+                   third_party=[("xarch/loong64asm", "internal/zzverif/loong64asm")],
+                   opts={"samples": 3, "maxdecisions": 3000, "branchtimeout": "30s",
+                         "stubstr": "wa-lang.org/wa/internal/native/loong64.AsmSyntax"})
     return c.finish()
